@@ -330,7 +330,9 @@ func c07Decrypt(c *Ctx, mk *ssa.Function, tr *an.Tracer) {
 			continue
 		}
 		xo, yo := tr.Origins(cd.X), tr.Origins(cd.Y)
-		isPrefix := func(os []string) bool { return originHasAll(os, []string{"[:20]"}) || originHasAll(os, []string{"[0:20]"}) }
+		isPrefix := func(os []string) bool {
+			return originHasAll(os, []string{"[:20]"}) || originHasAll(os, []string{"[0:20]"})
+		}
 		isHash := func(os []string) bool {
 			return originHasAll(os, []string{"Sha1Byte"}) || originHasAll(os, []string{"sha1.Sum"}) || originHasAll(os, []string{"dry.Sha1"})
 		}
